@@ -10,6 +10,9 @@ Init == \/ \E ms \in MSeqs, v \in 0..9 : c = [op |-> "interpolate", cs |-> [j \i
         \/ \E a \in Grid, o \in Grid, b \in Grid : c = [op |-> "angle", a |-> a, o |-> o, b |-> b]
         \/ \E a \in Grid, b \in Grid, cc \in Grid, d \in Grid : a # b /\ cc # d /\ c = [op |-> "lineint", a |-> a, b |-> b, c |-> cc, d |-> d]
         \/ \E n \in 0..3, st \in 2..4 : c = [op |-> "transform", cs |-> [j \in 1..n |-> [k \in 1..st |-> 100 * j + k]]]
+        \/ \E n \in 0..7 : c = [op |-> "layout", val |-> n]
+        \/ \E st \in 2..4 : \E f \in [1..st -> {0, 1, 2}] : c = [op |-> "maybeempty", cs |-> <<f>>]
 Next == FALSE /\ UNCHANGED c
+LayoutLaws == \A n \in 0..9 : LayoutLaw(n)
 Emit == PrintT(<<"CASE", ToJson(c)>>)
 ====
